@@ -19,6 +19,10 @@ pub const ACCOUNTS: &[&str] = &[
     "資産:銀行",
     "Expenses:Travel:Train",
     "Assets:Broker",
+    // a parent that is posted to directly next to its child, and a name that merely shares a prefix
+    "Assets:Bank:Savings",
+    "Assets:Bank2",
+    "Expenses:Travel",
 ];
 
 pub const COMMODITIES: &[&str] = &["USD", "EUR", "JPY", "CHF", "OKANE", "円", "AAPL"];
@@ -149,6 +153,12 @@ impl<'a> LedgerGen<'a> {
             .collect();
         rng.shuffle(&mut accts);
         accts.truncate(cfg.n_accounts.max(2));
+        // keep parent and child together often enough: a report on the parent must not absorb the child
+        for (parent, child) in [("Assets:Bank", "Assets:Bank:Savings"), ("Expenses:Travel", "Expenses:Travel:Train"), ("Assets:Bank", "Assets:Bank2")] {
+            if accts.iter().any(|a| a == parent) && !accts.iter().any(|a| a == child) && rng.chance(1, 3) {
+                accts.push(child.to_string());
+            }
+        }
         let mut coms: Vec<String> = COMMODITIES
             .iter()
             .filter(|a| cfg.wide || a.is_ascii())
@@ -667,6 +677,21 @@ impl<'a> LedgerGen<'a> {
             }
             let cur = running.get(acct).cloned().unwrap_or_default();
             let falsify = self.rng.chance(self.cfg.p_false_assertion.0, self.cfg.p_false_assertion.1);
+            // an assertion written as an expression; among them one that cancels to zero in a
+            // commodity the account does not hold while it holds another (true: X's commodity is zero)
+            let as_expr = self.rng.chance(1, 6);
+            if as_expr && !falsify && !cur.is_empty() && self.rng.chance(1, 3) {
+                let held: Vec<String> = cur.keys().cloned().collect();
+                let other: Vec<String> = self.commodities.iter().filter(|c| !held.contains(c)).cloned().collect();
+                if !other.is_empty() {
+                    let c = self.rng.pick(&other).clone();
+                    let cw = self.written_commodity(&c);
+                    let a = self.value(false);
+                    let e = Expr::Bin('-', Box::new(self.lit(a, &cw)), Box::new(self.lit(a, &cw)));
+                    t.postings[i].assertion = Some(e);
+                    continue;
+                }
+            }
             let expr = if cur.is_empty() {
                 if falsify {
                     let c = self.pick_commodity();
@@ -685,7 +710,11 @@ impl<'a> LedgerGen<'a> {
                     v += Dec::new(1, v.scale());
                 }
                 let cw = self.written_commodity(&c);
-                self.lit(v, &cw)
+                if as_expr {
+                    self.expr_for(v, &cw, true)
+                } else {
+                    self.lit(v, &cw)
+                }
             };
             t.postings[i].assertion = Some(expr);
         }
